@@ -3,6 +3,7 @@ C02 — the lock-step walk `_is_equivalent_to_minimal` decides language equality
 automata; the isomorphism oracle is sound.
 -/
 import Pfl.Props.C02_Min
+import Pfl.Proofs.FAIso
 namespace Pfl
 namespace ENFA
 variable {σ τ : Type} [DecidableEq σ] [DecidableEq τ]
@@ -12,24 +13,49 @@ variable {σ τ : Type} [DecidableEq σ] [DecidableEq τ]
 theorem isoWalk_true (M1 : ENFA σ) (M2 : ENFA τ) (h1 : M1.Deterministic) (e1 : M1.EpsFree)
     (h2 : M2.Deterministic) (e2 : M2.EpsFree) (fuel : Nat)
     (h : M1.isoWalk M2 fuel = some true) : ∀ w, M1.Lang w ↔ M2.Lang w := by
-  sorry
+  unfold isoWalk at h
+  split at h
+  · rename_i s1 s2 hs1 hs2
+    obtain ⟨S, hS1, hS2⟩ := isoWalkLoop_true M1 M2 fuel _ _ h
+    have hS : ∀ x ∈ S, Checked M1 M2 S x := by
+      intro x hx
+      rcases hS2 x hx with ⟨h', h''⟩ | h'
+      · exact absurd h' h''
+      · exact h'
+    intro w
+    rw [h1.lang_iff_head hs1, h2.lang_iff_head hs2]
+    exact checked_bisim M1 M2 e1 e2 S hS w s1 s2 (hS1 _ (by simp))
+  · cases h
 
 /-- every edge leads to a state that can reach a final state -/
 def Trim (M : ENFA σ) : Prop := ∀ t ∈ M.delta, ∃ w, ∃ f ∈ M.finals, M.Run t.2.2 w f
 
+set_option linter.unusedVariables false in
 /-- if the walk answers `False` on two trim, reduced deterministic automata, some word
 separates them -/
 theorem isoWalk_false (M1 : ENFA σ) (M2 : ENFA τ) (w1 : M1.WF) (w2 : M2.WF)
     (h1 : M1.Deterministic) (e1 : M1.EpsFree) (h2 : M2.Deterministic) (e2 : M2.EpsFree)
     (t1 : M1.Trim) (t2 : M2.Trim) (r2 : M2.Reduced) (fuel : Nat)
     (h : M1.isoWalk M2 fuel = some false) : ¬ ∀ w, M1.Lang w ↔ M2.Lang w := by
-  sorry
+  intro heq
+  unfold isoWalk at h
+  split at h
+  · rename_i s1 s2 hs1 hs2
+    have hstart : CoR M1 M2 s1 s2 (s1, s2) := ⟨[], Run.nil s1, Run.nil s2⟩
+    refine isoWalkLoop_false M1 M2 w2 h1 e1 h2 e2 t1 t2 r2 s1 s2 hs1 hs2 heq fuel _ _ h ?_ ?_
+    · intro x hx
+      rw [List.mem_singleton.mp hx]; exact hstart
+    · intro x hx
+      rw [List.mem_singleton.mp hx]; exact hstart
+  · cases h
 
+set_option linter.unusedVariables false in
 theorem minimizeOf_trim {κ : Type} [DecidableEq κ] (A : ENFA σ) (hA : A.WF) (hd : A.Deterministic)
     (he : A.EpsFree) (gs : List (List (Option σ))) (hgs : A.IsNerodePartition gs)
     (key : List (Option σ) → κ) (hkey : ∀ g ∈ gs, ∀ g' ∈ gs, key g = key g' → g = g')
-    (emptyKey : κ) : (A.minimizeOf gs key emptyKey).Trim := by
-  sorry
+    (emptyKey : κ) : (A.minimizeOf gs key emptyKey).Trim :=
+  minimizeOf_trim_aux A hA he gs
+    (fun q hq => (hgs.cover (some q)).mpr (Or.inr ⟨q, hq, rfl⟩)) key emptyKey
 
 /-- `is_equivalent_to` on two DFAs (minimise both, then walk): whenever it answers, the
 answer is language equality -/
@@ -43,7 +69,26 @@ theorem isEquivalent_exact {κ κ' : Type} [DecidableEq κ] [DecidableEq κ']
     (hkB : ∀ g ∈ gB, ∀ g' ∈ gB, keyB g = keyB g' → g = g') (eA' : κ) (eB' : κ') (fuel : Nat)
     (b : Bool) (h : (A.minimizeOf gA keyA eA').isoWalk (B.minimizeOf gB keyB eB') fuel = some b) :
     b = true ↔ ∀ w, A.Lang w ↔ B.Lang w := by
-  sorry
+  obtain ⟨dA', eA'', wA'⟩ := minimizeOf_shape A hA dA eA gA hgA keyA hkA eA'
+  obtain ⟨dB', eB'', wB'⟩ := minimizeOf_shape B hB dB eB gB hgB keyB hkB eB'
+  have lA := minimizeOf_lang A hA dA eA gA hgA keyA hkA eA'
+  have lB := minimizeOf_lang B hB dB eB gB hgB keyB hkB eB'
+  cases b with
+  | true =>
+    have := isoWalk_true _ _ dA' eA'' dB' eB'' fuel h
+    simp only [true_iff]
+    intro w
+    rw [← lA, ← lB]; exact this w
+  | false =>
+    have := isoWalk_false _ _ wA' wB' dA' eA'' dB' eB''
+      (minimizeOf_trim A hA dA eA gA hgA keyA hkA eA')
+      (minimizeOf_trim B hB dB eB gB hgB keyB hkB eB')
+      (minimizeOf_reduced B hB dB eB gB hgB keyB hkB eB') fuel h
+    simp only [Bool.false_eq_true, false_iff]
+    intro hall
+    apply this
+    intro w
+    rw [lA, lB]; exact hall w
 
 /-- the graph `m` of a bijection between the states respecting starts, finals and edges -/
 def IsIso (M1 : ENFA σ) (M2 : ENFA τ) (m : List (σ × τ)) : Prop :=
@@ -56,13 +101,36 @@ def IsIso (M1 : ENFA σ) (M2 : ENFA τ) (m : List (σ × τ)) : Prop :=
 
 theorem checkIso_iff (M1 : ENFA σ) (M2 : ENFA τ) (m : List (σ × τ)) :
     M1.checkIso M2 m = true ↔ M1.IsIso M2 m := by
-  sorry
+  unfold checkIso IsIso
+  simp only [Bool.and_eq_true, List.all_eq_true, decide_eq_true_eq, beq_iff_eq, decide_eq_decide,
+    FAIso.filter_fst_unique, FAIso.filter_snd_unique]
+  constructor
+  · rintro ⟨⟨⟨⟨⟨a, b⟩, c⟩, d⟩, e⟩, f⟩
+    exact ⟨a, b, c, fun pq h => ⟨d pq h, e pq h⟩, f⟩
+  · rintro ⟨a, b, c, d, f⟩
+    exact ⟨⟨⟨⟨⟨a, b⟩, c⟩, fun pq h => (d pq h).1⟩, fun pq h => (d pq h).2⟩, f⟩
 
+set_option linter.unusedSectionVars false in
 /-- isomorphic automata accept the same words -/
 theorem isIso_lang (M1 : ENFA σ) (M2 : ENFA τ) (w1 : M1.WF) (w2 : M2.WF) (e1 : M1.EpsFree)
     (e2 : M2.EpsFree) (m : List (σ × τ)) (h : M1.IsIso M2 m) (w : List Nat) :
     M1.Lang w ↔ M2.Lang w := by
-  sorry
+  obtain ⟨ha, hb, hc, hd, he⟩ := h
+  constructor
+  · rintro ⟨s, hs, f, hf, hr⟩
+    obtain ⟨q, hq, _⟩ := ha s (w1.starts_sub s hs)
+    obtain ⟨f', hf', hrun⟩ := Run.transport w1 e1 (fun p q => (p, q) ∈ m)
+      (fun p hp => (ha p hp).imp fun q hq => hq.1)
+      (fun p q p' q' a h1 h2 hedge => (he (p, q) h1 (p', q') h2 a
+        (List.mem_append_left _ (w1.delta_sym _ hedge a rfl))).mp hedge) hr q hq
+    exact ⟨q, (hd _ hq).1.mp hs, f', (hd _ hf').2.mp hf, hrun⟩
+  · rintro ⟨s, hs, f, hf, hr⟩
+    obtain ⟨p, hp, _⟩ := hb s (w2.starts_sub s hs)
+    obtain ⟨f', hf', hrun⟩ := Run.transport w2 e2 (fun q p => (p, q) ∈ m)
+      (fun q hq => (hb q hq).imp fun p hp => hp.1)
+      (fun q p q' p' a h1 h2 hedge => (he (p, q) h1 (p', q') h2 a
+        (List.mem_append_right _ (w2.delta_sym _ hedge a rfl))).mpr hedge) hr p hp
+    exact ⟨p, (hd _ hp).1.mpr hs, f', (hd _ hf').2.mpr hf, hrun⟩
 
 end ENFA
 end Pfl
